@@ -371,6 +371,8 @@ fn ntru_solve_entrypoint(
     let mut capital_f = cf_ntt.map(|c| c.balanced_value());
     let mut capital_g = cg_ntt.map(|c| c.balanced_value());
 
+    #[cfg(feature = "verif-hooks")]
+    crate::verif_hooks::emit_babai(&f, &g, &capital_f, &capital_g);
     match babai_reduce_i32(&f, &g, &mut capital_f, &mut capital_g) {
         Ok(_) => Some((capital_f, capital_g)),
         Err(_e) => {
